@@ -27,7 +27,7 @@ package node
 //@ func validateTrx(ctx)
 //@   nopanic
 //@   requires wf_ctx(ctx)
-//@   modifies ctx.SenderPubKey
+//@   modifies ctx.SenderPubKey, lastigas
 //@   allocates uint256.Int
 //@   ensures tx_same(ctx.Tx)                                                                                 [C03,C05]
 //@   ensures result == nil && ctx.Exec ==> sig_ok(ctx.Tx, ctx.ChainID)                                       [C03]
